@@ -80,9 +80,13 @@ VARIABLES
   pool,      \* pooled transactions [op, c, by, run]
   reqs,      \* notary requests [op, c, by, run, thr, sg, aud]
   \* the members
-  alive, pc, run, cancels, fin, reruns, late
+  alive, pc, run, cancels, fin, reruns, late,
+  losses,    \* number of losses so far
+  stuck      \* submissions whose monitor stayed pending after the loss ("StickyPending" only)
 cvars == <<nns, ntr, fund, alp, pgas, cand, neo, cons, recs, shared, sigs>>
-vars  == <<nns, ntr, fund, alp, pgas, cand, neo, cons, recs, shared, sigs, pool, reqs, alive, pc, run, cancels, fin, reruns, late>>
+lvars == <<losses, stuck>>
+vars  == <<nns, ntr, fund, alp, pgas, cand, neo, cons, recs, shared, sigs, pool, reqs, alive, pc, run, cancels, fin, reruns, late,
+           losses, stuck>>
 
 Tx(op, c, by)       == [op |-> op, c |-> c, by |-> by, run |-> run[by]]
 Req(op, c, by, thr) == [op |-> op, c |-> c, by |-> by, run |-> run[by], thr |-> thr, sg |-> {by},
@@ -90,13 +94,14 @@ Req(op, c, by, thr) == [op |-> op, c |-> c, by |-> by, run |-> run[by], thr |-> 
 \* transactionGroupMonitor.isPending of the member's current run
 Pending(i, op, c) == \/ \E t \in pool : t.by = i /\ t.run = run[i] /\ t.op = op /\ t.c = c
                      \/ \E r \in reqs : r.by = i /\ r.run = run[i] /\ r.op = op /\ r.c = c
+                     \/ \E r \in stuck : r.by = i /\ r.run = run[i] /\ r.op = op /\ r.c = c
 
 Init ==
   /\ nns = FALSE /\ ntr = FALSE /\ fund = FALSE /\ alp = FALSE /\ pgas = FALSE /\ cand = FALSE /\ neo = FALSE
   /\ cons = {} /\ recs = [c \in Contracts |-> {}] /\ shared = FALSE /\ sigs = {}
   /\ pool = {} /\ reqs = {}
   /\ alive = [i \in Members |-> i \notin Absent] /\ pc = [i \in Members |-> 1] /\ run = [i \in Members |-> 0]
-  /\ cancels = 0 /\ fin = FALSE /\ reruns = 0 /\ late = FALSE
+  /\ cancels = 0 /\ fin = FALSE /\ reruns = 0 /\ late = FALSE /\ losses = 0 /\ stuck = {}
 
 \* ------------------------------------------------------------------ members
 Advance(i) == pc' = [pc EXCEPT ![i] = @ + 1] /\ UNCHANGED <<pool, reqs>>
